@@ -222,6 +222,14 @@ class StmtMixin:
                 cur = self.read_var(s, "_yielded")
                 new = ops.unit(v) if cur.e is None else SV(cur.t, z3.Concat(cur.e, z3.Unit(ops.coerce(v, cur.t.elem).e)))
                 self.store_loc(s, ast.Name(id="_yielded", ctx=ast.Load()), new)
+                # what the consumer of the generator sees while it is suspended here (context managers: the state the `with` body runs in)
+                if self.inline_depth == 0:
+                    env = Env(s, self.entry, {k_: v_ for k_, v_ in self.entry_locals.items()})
+                    for k_, clause in enumerate(getattr(self.c, "at_yield", [])):
+                        nm = "at-yield-%d@L%d" % (k_, stmt.lineno - self.base_line)
+                        cnt = self.__dict__.setdefault("_yield_names", {})
+                        cnt[nm] = cnt.get(nm, 0) + 1
+                        self.oblige(nm + ("" if cnt[nm] == 1 else "@path-%d" % cnt[nm]), s, self.spec.boolean(clause, env), "post")
                 outs.append(Outcome("normal", s))
             return outs + sink
         sink = []
